@@ -17,6 +17,8 @@ carries the produced text, the set of files in the scratch directory is unchange
 Mixed lines (L1 and L2-mixed): the operator-only values (`<`, `<<<`, `>`, `>>`, `|`, `&`, `2>&1`, ...) double-quoted on
 lines that ALSO carry one genuine operator (`< f`, `<<< w`, `> f`, `>> f`, `2>&1`, `| sink`, trailing `&`), value before
 and after it: the plan / the observable behaviour must be exactly that of a harmless value in the same place.
+Alias bodies: the same values through a double-quoted `"$A"` / `"${A}"` / `"$(cmd)"` written in the VALUE of an alias used
+as the command word (first / middle / last word of the body), L1 with the alias table in the shell, L2 through a script.
 Known-finding classes (mirroring Known_C13 of Properties/C13.v) are handled three-way."""
 import os, re, shutil, subprocess, tempfile
 import common as C
@@ -30,7 +32,7 @@ PINNED = ["C13_dq", "C13_unquoted_full", "C13_refuted", "C13_unquoted_partial", 
           "C13_subst_refuted", "C13_glob_refuted", "C13_output_refuted", "C13_post_passes", "C13_post_passes_exact",
           "C13_known_is_not_inert", "C13_unquoted_exact_text", "C13_tokenize_unquoted", "C13_post_passes_from",
           "C13_dq_with_input", "C13_witness_value_and_genuine_lt", "C13_glob_blank", "C13_glob_tag_whole_path",
-          "C13_expand_glob_one", "C13_witness_glob_dir", "C13_witness_pipe", "C13_witness_gt", "C13_witness_amp", "C13_witness_lt", "C13_nonvacuous"]
+          "C13_expand_glob_one", "C13_witness_glob_dir", "C13_dq_in_alias_body", "C13_witness_alias_body", "C13_witness_pipe", "C13_witness_gt", "C13_witness_amp", "C13_witness_lt", "C13_nonvacuous"]
 TRUSTED = [
     "Coq 8.16.1 kernel (coqc; coqchk in thorough); vm_compute only in concrete witnesses / non-vacuity examples",
     "hand transcriptions composed by Model/FullPlan.v: parse_line (Model/Tokenizer.v), do_expansion and its passes "
